@@ -56,8 +56,8 @@ with rcause :=
 (* a failure carries its class and the kind / field name it reports *)
 Record failure := { fl_class : string; fl_kind : string; fl_field : string }.
 
-(* result of unmarshal: a value, or the set of failures the code may return
-   (more than one only when several fields fail), or a panic *)
+(* result of unmarshal: a value, or the failure the code returns (a one-element list as of
+   the fix for F12: the first failing field in name order decides), or a panic *)
 Inductive ures (A : Type) := UOk (a : A) | UFail (fs : list failure) | UPanic (what : string).
 Arguments UOk {A} a. Arguments UFail {A} fs. Arguments UPanic {A} what.
 
@@ -146,6 +146,16 @@ Fixpoint collect_fields (rs : list (string * fres))
       end
   end.
 
+(* as of the fix for F12 the decoded fields are visited in name order
+   (slices.Sorted(maps.Keys(decoded.Fields))): insertion sort by String.leb, the byte-wise
+   order of Go strings *)
+Fixpoint ins_field (x : string * dval) (l : list (string * dval)) : list (string * dval) :=
+  match l with
+  | [] => [x]
+  | y :: r => if String.leb (fst x) (fst y) then x :: l else y :: ins_field x r
+  end.
+Definition sort_fields (l : list (string * dval)) : list (string * dval) := fold_right ins_field [] l.
+
 (* sequence the results of the causes: the first failure / panic wins (slice order) *)
 Fixpoint seq_causes (rs : list (ures rcause)) : ures (list rcause) :=
   match rs with
@@ -183,10 +193,10 @@ Fixpoint both (c : ucfg) (d : dd) {struct d} : ures rerr * ures rcause :=
         | UPanic w => UPanic w
         | UOk def =>
             let '(typed, unknown, fails, pn) :=
-              collect_fields (map (fun nv => (fst nv, bind_field c def kind (fst nv) (snd nv))) fields) in
+              collect_fields (map (fun nv => (fst nv, bind_field c def kind (fst nv) (snd nv))) (sort_fields fields)) in
             match pn, fails with
             | Some w, _ => UPanic w
-            | None, _ :: _ => UFail fails
+            | None, f :: _ => UFail [f]          (* the first failing field in name order returns *)
             | None, [] =>
                 match cres with
                 | UOk cs => UOk (RErr def msg typed unknown stack cs)
